@@ -155,8 +155,8 @@ class Compiler:
         if m:
             bits, sg = INT_TY[m.group(1)]
             return ('v', ((1 << (bits - 1)) - 1 if sg else (1 << bits) - 1) if m.group(2) == 'MAX' else (-(1 << (bits - 1)) if sg else 0))
-        m = re.match(r'^\{alloc\d+: &(.*)\}$', t)
-        if m: return ('static_ref', strip_lifetimes(m.group(1)))
+        m = re.match(r'^\{alloc(\d+): &(.*)\}$', t)
+        if m: return ('static_ref', strip_lifetimes(m.group(2)), int(m.group(1)))
         m = re.match(r'^(.*)::promoted\[(\d+)\]$', t)
         if m: return ('promoted', int(m.group(2)))
         m = re.match(r'^ZeroSized: \{closure@(.*)\}$', t)
@@ -630,7 +630,16 @@ class Exec:
                 n = len(v) if isinstance(v, SliceRef) else len(items)
                 if p[0] == 'i':
                     i = p[1]
-                    if is_sym(i): raise Unsupported('symbolic index')
+                    if is_sym(i):
+                        vals = items[lo:lo + n]
+                        if vals and all(isinstance(x, bool) or z3.is_bool(x) for x in vals):
+                            # a table of flags: the disjunction of the positions that hold (the MIR bounds assert has run before)
+                            v = z3.simplify(z3.Or([z3.And(i == k, x) if z3.is_bool(x) else (i == k) for k, x in enumerate(vals) if x is not False]))
+                            continue
+                        if not vals or n > 256: raise Unsupported('symbolic index')
+                        for k in range(n):
+                            if k == n - 1 or s.branch(i == k): v = vals[k]; break
+                        continue
                     if i >= n: raise Panic('index', 'index out of bounds: the len is %d but the index is %d' % (n, i), s.where())
                     v = items[lo + i]
                 else:
@@ -732,15 +741,27 @@ class Exec:
                 s.static_cache[key] = s.call_body(b, [])
             return s.static_cache[key]
         if k == 'static_ref':
-            return s.static_ref(c[1])
+            return s.static_ref(c[1], c[2] if len(c) > 2 else None)
         if k == 'closure':
             return Agg('{closure@%s}' % c[1], 0, [])
         if k == 'named':
             return s.named_const(fr, c[1])
         raise Unsupported('const ' + repr(c))
 
-    def static_ref(s, name):
+    def static_ref(s, name, alloc=None):
         key = ('static', name)
+        if alloc is not None and s.find_model('static:' + name) is None:
+            # a plain-data static of the crate (`static T: [bool; 128] = make_table();`): its initialiser is run from MIR
+            sn = s.prog.alloc_statics().get(alloc)
+            b = None
+            if sn and not sn.startswith('<') and sn.split('::')[-1] != name.split('::')[-1]:   # (lazy_static wrappers have the type named like the static)
+                for cand in s.prog.by_name.get(sn, []) + [x for k, v in s.prog.by_name.items() if k.endswith('::' + sn) for x in v]:
+                    if cand.kind.startswith('static'): b = cand; break
+            if b is not None:
+                key = ('static-data', sn)
+                if key not in s.static_cache:
+                    s.static_cache[key] = Ptr(Cell(s.call_body(b, [])))
+                return s.static_cache[key]
         if key not in s.static_cache:
             m = s.find_model('static:' + name)
             if m is not None:
